@@ -11,11 +11,11 @@ from props import common
 
 ID = "C05"
 LEVEL = "proof"
-LEVEL_TEXT = "Lean 4 theorems: the bookkeeping invariant inv (entries >= 0, bins+flows sum to entries, collection members and Fraction denominator carry the parent's entries, Stack levels antitone with level0+nanflow = entries, Bag weights sum to entries) holds for zero(), is preserved by fill, +, * and hence by every run of fills from an empty tree and (inv_history) by every history of fill / + / += / * / zero() / copy() over a pool of aggregators derived from one empty tree; a vectorised fill under the hypotheses of the C03 theorem keeps it (inv_fillNp) and so does a JSON round trip (inv_reload); the regular bin index is always < num. Tied to /repo by long operation histories over a pool (row and vectorised fills, +, +=, *, copy, zero, JSON round trips) with the invariants evaluated on every live aggregator of the real library after every operation."
+LEVEL_TEXT = "Lean 4 theorems: the bookkeeping invariant inv (entries >= 0, bins+flows sum to entries, collection members and Fraction denominator carry the parent's entries, Stack levels antitone with level0+nanflow = entries, Bag weights sum to entries) holds for zero(), is preserved by fill, +, * and hence by every run of fills from an empty tree and (inv_history) by every history of fill / fill.numpy / + / += / * / zero() / copy() over a pool of aggregators derived from one empty tree; a vectorised fill under the hypotheses of the C03 theorem keeps it (inv_fillNp) and so does a JSON round trip (inv_reload); the regular bin index is always < num. Tied to /repo by long operation histories over a pool (row and vectorised fills, +, +=, *, copy, zero, JSON round trips) with the invariants evaluated on every live aggregator of the real library after every operation."
 LEVEL_NOTE = "Exact arithmetic in the theorems; the property's floating-point clause (values within a few ulps of any edge are accepted and land in exactly one bin) is decided by the harness's edge probes on the real code (row-wise and vectorised, non-dyadic widths, large offsets), not by a theorem."
 TECHNIQUE = 'Lean 4 proof (invariant by induction over operations) + history correspondence + floating-point edge probes on the implementation'
 LEAN_MODULE = "Hg.Props.C05"
-THEOREMS = ["Hg.C05.inv_zero", "Hg.C05.inv_fill", "Hg.C05.inv_add", "Hg.C05.inv_scale", "Hg.C05.inv_fillAll", "Hg.C05.inv_history", "Hg.C05.inv_fillNp",
+THEOREMS = ["Hg.C05.inv_zero", "Hg.C05.inv_fill", "Hg.C05.inv_add", "Hg.C05.inv_scale", "Hg.C05.inv_fillAll", "Hg.C05.inv_history", "Hg.C05.inv_history_tmpl", "Hg.C05.inv_fillNp",
             "Hg.C05.inv_reload", "Hg.C05.inv_immut", "Hg.C05.binIndex_lt"]
 CASES = {"quick": 260, "thorough": 8000}
 RULE = ("operation histories (8..24 ops) over a pool of aggregators of one random tree: row fills, vectorised fills, +, +=, *, "
